@@ -54,17 +54,30 @@ def scratch_root():
 _scratch_ctr = 0
 
 
-def new_scratch(tag="t"):
+def new_scratch(tag="t", long_path=False):
+    """fresh scratch directory; with long_path the returned directory lies ~300 characters deep (every
+    component far below NAME_MAX), so that paths of data files exceed 264 characters"""
     global _scratch_ctr
     _scratch_ctr += 1
     p = os.path.join(scratch_root(), "%s%d" % (tag, _scratch_ctr))
     shutil.rmtree(p, ignore_errors=True)
+    if long_path:
+        p = os.path.join(p, "deep_" + "a" * 90, "archive_" + "b" * 90, "site_" + "c" * 60)
     os.makedirs(p)
     return p
 
 
 def rm(path):
     shutil.rmtree(path, ignore_errors=True)
+    # a long_path scratch: remove its (then empty) ancestors below the scratch root as well
+    root = scratch_root()
+    parent = os.path.dirname(path)
+    while parent.startswith(root + os.sep) and parent != root:
+        try:
+            os.rmdir(parent)
+        except OSError:
+            break
+        parent = os.path.dirname(parent)
 
 
 # ---------------------------------------------------------------- worker pool
